@@ -201,7 +201,7 @@ def cmd_check(prop, tier):
         for k in load_known():
             if k.get("status") == "known" and k.get("property") == prop:
                 kf.write(k["fingerprint"] + "\n")
-    cap = 90 if tier == "quick" else 900
+    cap = int(os.environ.get("VERIF_CAP_SECONDS", "90" if tier == "quick" else "900"))   # per-worker wall clock; the override is for pre-screening a tier in less time
     peer_files = {}
     if any(len(u) > 5 for u in units):      # version-skew: the peer build writes its records first
         refs = ":".join(sorted(glob.glob(os.path.join(REPO, "*", "test", "*.sk"))))
